@@ -461,3 +461,27 @@ def filter_scenario(rng, size='quick', **over):
         for kk in keys + absent[:1]:
             lines += [f'cf {kk}', f'cfs {kk}', f'c {kk}']
     return lines
+
+
+def tools_scenario(rng, size='quick', **over):
+    """C16: blobs produced by a kv history, then the offline tools over every file and damaged copies"""
+    c, line = cfg_line(rng, dup=1, key=rng.choice([4, 8, 33, 128]), rt='mt', **over)
+    klen = c['key']
+    keys = mk_keys(rng, klen, rng.randint(2, 5))
+    lines = [line, 'states']
+    seed = 1
+    n = rng.randint(5, 12) if size == 'quick' else rng.randint(8, 30)
+    for _ in range(n):
+        x = rng.random()
+        if x < 0.6:
+            lines.append(f'w {rng.choice(keys)} {rng.choice(TS_POOL)} {rng.choice(METAS_W)} {rng.choice([0, 1, 10, 300, 5000])} {seed % 250 + 1}')
+            seed += 1
+        elif x < 0.75:
+            lines.append(f'd {rng.choice(keys)} {rng.choice(TS_POOL)} {rng.choice(["-", "m:01"])} {rng.choice([0, 1])}')
+        else:
+            lines.append(rng.choice(['close_active', 'force always', 'settle', 'restore_active']))
+        lines.append('states')
+    lines += ['settle', f'toolsweep {24 if size == "quick" else 80} {rng.randrange(1, 10**6)}', 'states']
+    for k in keys:
+        lines += [f'r {k}', f'ram {k}']
+    return lines
